@@ -1245,8 +1245,10 @@ theorem groupvm_is_corevm_partial_advance_heads (fuel : Nat) (s : CoreVM.VM) (f 
         = .ok (((CoreVM.matchingU e us ms).filter fun h =>
             decide ((h, pe + 2, CoreIndex.HeadStatus.merging) ∈ CoreVM.hview i')).map fun h => (f, h)) s' ∧
       CoreVM.FlowAt s' f i' x cfg ∧ s'.r = s.r ∧
-      CoreVM.hview i' = others ++ CoreVM.renderU (pe + 1) us (p1Members e n [] ms) :=
-  CoreVM.and_clause_phase1_real fuel s f i x cfg l mu pe n e others us ms F hown C S hlen hnd hoth hv hstarted hrange
+      CoreVM.hview i' = others ++ CoreVM.renderU (pe + 1) us (p1Members e n [] ms) := by
+  obtain ⟨s', i', h1, h2, h3, h4, _⟩ :=
+    CoreVM.and_clause_phase1_real fuel s f i x cfg l mu pe n e others us ms F hown C S hlen hnd hoth hv hstarted hrange
+  exact ⟨s', i', h1, h2, h3, h4⟩
 
 /-- `match E0() and E1()` in a STARTED flow, E0 already received: `h1` parked on `WaitForHeads 2`, `h2` on `match E1()` -/
 def exIxsStartedWait : CoreVM.IxS :=
@@ -1445,5 +1447,60 @@ example :=
       · simp at h1)
     rfl rfl (by intro c hc; simp at hc; rcases hc with rfl | rfl <;> rfl) (by decide) (by decide)
     rfl rfl rfl (by decide) rfl rfl ⟨rfl, rfl, rfl⟩ rfl (by decide) rfl
+
+/-- **groupvm_is_corevm_partial (one event on a pure and-group through BOTH calls of the interpreter model's real `_advance_head_front`).**
+    Between two events (member heads on their `match` elements or parked, forking head INACTIVE, flow STARTED, event queue empty, nothing
+    cleared), a group statement followed by `CatchPatternFailure(None)` and the marker `send`.  Call 1 — `runToCompletion`'s handling of
+    the event, with the member heads that wait on `match e` — ends in the state `GroupVM.p1Members e |c| [] ms` describes and returns
+    `acts`.  If the event completes the clause (`remMs … = []`), `acts` is exactly the one MERGING member head, and call 2 — the merging
+    loop, with `acts` — merges the group and returns the forking head, the only head left, ACTIVE on the marker behind the group: the
+    object of `group_completes_at_first_sat` at the level of the real function, for one event, any clause size. -/
+theorem groupvm_is_corevm_partial_and_event_real (fuel : Nat) (s : CoreVM.VM) (f : CoreIndex.FUid) (i : CoreIndex.Inst) (x : CoreVM.InstX)
+    (cfg : CoreVM.FlowCfg) (l mu : String) (pe fp e : Nat)
+    (r : CoreIndex.HUid) (us : List (CoreIndex.HUid × Nat)) (ms : List (Nat × MLoc)) (spec : CoreVM.Spec) (nm : String)
+    (F : CoreVM.FlowAt s f i x cfg) (hown : x.ctxOwner = none) (C : CoreVM.ClauseShape cfg l mu pe ms.length)
+    (S : CoreVM.MembersShape cfg l pe us)
+    (hlen : us.length = ms.length) (hndu : (r :: us.map (·.1)).Nodup) (hq : QMs ms)
+    (hv : CoreVM.hview i = (r, fp, CoreIndex.HeadStatus.inactive) :: CoreVM.renderU (pe + 1) us ms)
+    (hfu : OMap.lookup mu x.forkUids = some r)
+    (hhx : ((OMap.lookup (f, r) s.r.hx).getD {}).childHeadUids = us.map (·.1))
+    (hleaf : ∀ c ∈ us.map (·.1), ((OMap.lookup (f, c) s.r.hx).getD {}).childHeadUids = [])
+    (hmu : mu ∉ us.map (·.1)) (hfp : fp ≠ pe + 2)
+    (hstarted : i.status = .started) (hrange : ∀ o ∈ i.heads, o.pos < cfg.elements.size)
+    (hqueue : s.r.queue = []) (hclr : s.r.cleared = [])
+    (hsz4 : pe + 4 < cfg.elements.size) (hc1 : cfg.elements[pe + 3]! = .catchFail none) (hc2 : cfg.elements[pe + 4]! = .sendOp spec)
+    (hp : CoreVM.PlainSpec spec nm) (hargs : spec.args = []) (hint : CoreVM.internalEvents.contains nm = false)
+    (hcl : ∀ c ∈ us.map (·.1), ((OMap.lookup (f, c) s.r.hx).getD {}).catchLabels.isEmpty = false) :
+    ∃ s1 i1 acts, CoreVM.advanceHeadFront (fuel + 4) ((CoreVM.matchingU e us ms).map fun h => (f, h)) s = .ok acts s1 ∧
+      CoreVM.FlowAt s1 f i1 x cfg ∧ s1.r = s.r ∧
+      CoreVM.hview i1 = (r, fp, CoreIndex.HeadStatus.inactive) :: CoreVM.renderU (pe + 1) us (p1Members e ms.length [] ms) ∧
+      (remMs (p1Members e ms.length [] ms) = [] → remMs ms ≠ [] →
+        ∃ (j : Nat) (uj : CoreIndex.HUid × Nat) (a : Nat), us[j]? = some uj ∧
+          (p1Members e ms.length [] ms)[j]? = some (a, MLoc.merging) ∧ acts = [(f, uj.1)] ∧
+          ∃ s2 i2 x2, CoreVM.advanceHeadFront (fuel + 5) acts s1 = .ok [(f, r)] s2 ∧ CoreVM.FlowAt s2 f i2 x2 cfg ∧
+            CoreVM.hview i2 = [(r, pe + 4, CoreIndex.HeadStatus.active)]) :=
+  CoreVM.and_group_event_real fuel s f i x cfg l mu pe fp e r us ms spec nm F hown C S hlen hndu hq hv hfu hhx hleaf hmu hfp
+    hstarted hrange hqueue hclr hsz4 hc1 hc2 hp hargs hint hcl
+
+/-- `match E0() and E1()` followed by `send Hit()`, flow STARTED, E0 received (`h1` parked), the fork registered, catch labels set -/
+def exVMEventReal : CoreVM.VM :=
+  { ixs := exIxsStartedWait,
+    r := { prog := { flows := [exCfgAndHit] }, fx := [("m", exXFork)],
+           hx := [(("m", "h0"), { childHeadUids := ["h1", "h2"] }), (("m", "h1"), { catchLabels := ["f"] }),
+                  (("m", "h2"), { catchLabels := ["f"] })] } }
+
+-- non-vacuity of `groupvm_is_corevm_partial_and_event_real`: event E1 completes the clause
+example :=
+  groupvm_is_corevm_partial_and_event_real 1 exVMEventReal "m" exInstStartedWait exXFork exCfgAndHit "e" "u" 13 2 1 "h0"
+    [("h1", 4), ("h2", 7)] [(0, .atWait), (1, .atMatch)] (exSpec "Hit") "Hit"
+    { hi := rfl, hx := rfl, hc := rfl } rfl
+    { hl := rfl, hsize := by decide, hw := rfl, hm := rfl }
+    (by intro u hu; simp at hu; rcases hu with rfl | rfl <;> exact ⟨rfl, by decide⟩)
+    rfl (by decide) (by intro m hm; simp at hm; rcases hm with rfl | rfl <;> simp)
+    rfl rfl rfl (by intro c hc; simp at hc; rcases hc with rfl | rfl <;> rfl) (by decide) (by decide)
+    rfl (by intro o ho; simp [exInstStartedWait] at ho; rcases ho with rfl | rfl | rfl <;> decide)
+    rfl rfl (by decide) rfl rfl ⟨rfl, rfl, rfl⟩ rfl (by decide)
+    (by intro c hc; simp at hc; rcases hc with rfl | rfl <;> rfl)
+example : remMs (p1Members 1 2 [] [(0, .atWait), (1, .atMatch)]) = [] ∧ remMs [(0, MLoc.atWait), (1, MLoc.atMatch)] ≠ [] := by decide
 
 end NemoVerif.C07
